@@ -18,6 +18,8 @@ the live classes (every generated name starts with `ec`).
   `ecArmHttp` / `ecArmOther` are the rows of `HTTP_*` names / other names outside `ecKeys`
   (several fresh probe names each; the extraction fails unless they all agree, and unless near
   misses of the prefix - `HTTP`, `http_x`, `XHTTP_Y` - behave like other names).
+* `ecUncovered` - the (property, key) pairs with the key in the property's read set and the
+  property's cache key not in the row of the key: what an assignment leaves stale.
 * `ecUnchangedNoop`, `ecDelViaSet`, `ecReadonlyFlag` - `request[K] = <same value>` drops nothing;
   `del request[K]` drops what `request[K] = ''` drops and removes the key; a truthy
   `ombott.request.readonly` makes assignment raise `KeyError`.
@@ -330,9 +332,19 @@ def collect():
             raise RuntimeError(f'request.{name} = v changed the cache entry of a read-only property')
     reads, http_any, view = read_sets(props)
     keys = sorted(set().union(*reads.values()) | set(EXTRA_KEYS))
-    return dict(props=props, reads=reads, http_any=http_any, view=view, keys=keys,
-                arms=arms(props, keys), arm_http=generic_row(props, PROBE_HTTP, 'HTTP_*'),
-                arm_other=generic_row(props, [k for k in PROBE_OTHER if k not in keys], 'other'),
+    arm_rows = arms(props, keys)
+    arm_http = generic_row(props, PROBE_HTTP, 'HTTP_*')
+    arm_other_keys = [k for k in PROBE_OTHER if k not in keys]
+    arm_other = generic_row(props, arm_other_keys, 'other')
+    armd = dict(arm_rows)
+    uncovered = []
+    for name, key, _ in props:
+        for k in sorted(reads[name]):
+            if key not in armd.get(k, arm_http if k.startswith('HTTP_') else arm_other):
+                uncovered.append((name, k))
+    return dict(props=props, reads=reads, http_any=http_any, view=view, keys=keys, uncovered=uncovered,
+                arms=arm_rows, arm_http=arm_http,
+                arm_other=arm_other,
                 setitem=setitem_facts(props, keys + PROBE_HTTP[:2]), copy=copy_facts(props))
 
 
@@ -358,6 +370,10 @@ def generate():
     out.append('def ecArmHttp : List String := ' + llist(lstr(x) for x in t['arm_http']))
     out.append('/-- … and for every other name outside `ecKeys` (including near misses of the prefix) -/')
     out.append('def ecArmOther : List String := ' + llist(lstr(x) for x in t['arm_other']))
+    out.append('/-- the (property, environ key) pairs the probe found UNCOVERED on this tree: the property reads the key, '
+               'assigning the key through the request object leaves its cache entry in place -/')
+    out.append('def ecUncovered : List (String × String) := [\n' + ',\n'.join(
+        f'  ({lstr(a)}, {lstr(k)})' for a, k in t['uncovered']) + ']')
     un, dv, de, ro = t['setitem']
     out.append('/-- `request[K] = <the value it has>` drops nothing -/')
     out.append(f'def ecUnchangedNoop : Bool := {lbool(un)}')
